@@ -24,7 +24,7 @@ MANIFEST = {
               "meaning of its code, which is a finite table comparison."),
     "note": ("Trusted: rustc front end; spec/sgr.py; std's split/parse/collect::<Option<_>>/VecDeque::pop_front. Not decided: what "
              "u8::from_str accepts (e.g. '+1'); truncated extended colours."),
-    "technique": "static analysis: abstract evaluation of parse on every code 0..=255 from two base styles, the extended-colour forms, rejects and zero-padded codes, compared with the SGR table; pop-order dataflow of the extended-colour arms, structural wiring rules",
+    "technique": "static analysis: abstract evaluation of parse on every code 0..=255 from two base styles, the extended-colour forms, rejects and zero-padded codes, compared with the SGR table; pop-order dataflow of the extended-colour arms; no-style inputs, all-or-nothing numeric split and slot wiring by evaluation on closed sets of descriptions",
 }
 
 F = "anstyle_ls::parse"
